@@ -24,5 +24,7 @@ C07Inv == Applies => C07Ok(R)
 \* a duration of 10^6 beats or more (7+ digits) is about 10^9 ticks: no delta time can hold it, whatever follows
 \* (the numbers themselves are beyond TLC's integers, so the record carries the digits)
 AbsurdInv == R.kind = "absurd" => /\ Len(R.digits) >= 7 /\ R.digits[1] \in 49..57 /\ \A i \in 1..Len(R.digits) : R.digits[i] \in 48..57
-                                  /\ R.refused
+                                  \* (4,473,924 beats, the least of them, are 2^28 ticks at 60.00001 ticks per beat: with the 61 or more
+                                  \* ticks per quarter note that this binary declares nothing can hold it; at a coarser resolution nothing is claimed)
+                                  /\ (R.refDivision >= 61 => R.refused)
 =============================================================================
